@@ -41,6 +41,11 @@ def bounds(tier):
 
 
 def row_words(row, text, d):
+    """rows of the letters C, F, I, L carry a mid-row style code (italics on) in the middle of the row: on a decoder it
+    occupies one cell; the row's columns are those of the returned line (text run, code, text run)"""
+    if len(text) >= 4 and text.strip()[:1] in "CFIL":
+        half = (len(text) // 2) & ~1
+        return [C.pac(row, 0)] * d + C.text_words(text[:half]) + [C.MR_ITALIC] * d + C.text_words(text[half:])
     return [C.pac(row, 0)] * d + C.text_words(text)
 
 
@@ -74,7 +79,7 @@ def rollup_doc(depth, texts, d):
     lines = ["Scenarist_SCC V1.0", ""]
     t = 30
     for text in texts:
-        w = [cmd] * d + [C.CR] * d + [C.pac(15, 0)] * d + C.text_words(text)
+        w = [cmd] * d + [C.CR] * d + row_words(15, text, d)
         lines.append(tc(t) + "\t" + " ".join(w))
         lines.append("")
         t += len(w) + 60
@@ -101,6 +106,14 @@ def judge(doc, row_texts, klass):
     from pycaption import SCCReader
     from pycaption.exceptions import CaptionLineLengthError
 
+    # a row with a mid-row code is returned as its two runs joined by the code's cell (a blank)
+    def shown(t):
+        if len(t) >= 4 and t.strip()[:1] in "CFIL":
+            half = (len(t) // 2) & ~1
+            return t[:half] + " " + t[half:]
+        return t
+
+    row_texts = [shown(t) for t in row_texts]
     long_rows = [t for t in row_texts if len(t) > 32]
     v = []
     try:
